@@ -78,8 +78,8 @@ extern long mpt_buffer_set(MPT_STRUCT(buffer) *buf, const MPT_STRUCT(type_traits
 	}
 	/* terminate overlapping target data */
 	if (fini) {
-		size_t off;
-		for (off = pos; off < used; off += elem_size) {
+		size_t off, last = (end < used) ? end : used;
+		for (off = pos; off < last; off += elem_size) {
 			fini(ptr + off);
 		}
 	}
@@ -121,10 +121,10 @@ extern long mpt_buffer_set(MPT_STRUCT(buffer) *buf, const MPT_STRUCT(type_traits
 			else if (init(ptr + pos, 0) < 0) {
 				/* invalidate remaining data as result of fatal error */
 				buf->_used = pos;
+				/* replaced elements are already terminated */
 				if (fini) {
-					while (pos < used) {
+					for (pos = end; pos < used; pos += elem_size) {
 						fini(ptr + pos);
-						pos += elem_size;
 					}
 				}
 				return count;
